@@ -366,6 +366,39 @@ def lossless_tests(nruns, seed):
             out["viol"].append("%s seed %d: evolution after restore diverges from the original under the same RNG state" % (kind, s))
         out["runs"] += 1
         out["samples"].append(dict(kind=kind, seed=s, gens_before=g1, gens_after=g2, through_evolve_until_convergence=conv))
+    # ---- what a checkpointed call leaves on disk does not depend on files of the same names left by an EARLIER call: a second
+    # call from the same state (after the population was regenerated, so the age repeats) runs once in a directory that still
+    # holds the first call's checkpoints and once in an empty one; every checkpoint must load to the same optimizer state
+    out["rewrite_runs"] = 0
+    for r in range(max(2, nruns // 7)):
+        s = rng.randrange(10 ** 6)
+        opt = make_island(s, "values")
+        d_old, d_new = os.path.join(work, "old%d" % r), os.path.join(work, "new%d" % r)
+        os.makedirs(d_old)
+        os.makedirs(d_new)
+        kw = dict(fitness_threshold=-1e300, convergence_check_frequency=rng.choice([1, 2]), num_checkpoints=rng.choice([None, 2, 3]))
+        opt.evolve_until_convergence(max_generations=rng.randint(1, 3), checkpoint_base_name=os.path.join(d_old, "ck"), **kw)
+        opt.regenerate_population()
+        twin = copy.deepcopy(opt)
+        st_np, st_py = np.random.get_state(), random.getstate()
+        g2 = rng.randint(1, 3)
+        opt.evolve_until_convergence(max_generations=g2, checkpoint_base_name=os.path.join(d_old, "ck"), **kw)
+        np.random.set_state(st_np)
+        random.setstate(st_py)
+        twin.evolve_until_convergence(max_generations=g2, checkpoint_base_name=os.path.join(d_new, "ck"), **kw)
+        out["rewrite_runs"] += 1
+        for f in sorted(os.listdir(d_new)):
+            if not f.endswith(".pkl"):
+                continue
+            if not os.path.exists(os.path.join(d_old, f)):
+                out["viol"].append("seed %d: checkpoint %s is written in an empty directory but missing where an earlier call had left files" % (s, f))
+                break
+            a = snapshot(load_evolutionary_optimizer_from_file(os.path.join(d_new, f)))
+            b = snapshot(load_evolutionary_optimizer_from_file(os.path.join(d_old, f)))
+            if a != b:
+                out["viol"].append("seed %d: checkpoint %s of a second call holds generation %r / a population of the EARLIER call where a file "
+                                   "of that name already existed; in an empty directory the same call writes the current state" % (s, f, b["age"]))
+                break
     shutil.rmtree(work, ignore_errors=True)
     return out
 
